@@ -198,6 +198,7 @@ func (s *seqRunner) apply(op string) OpResult {
 	}
 	preTotal := m.totalWeight()
 	m.added = 0
+	m.loadInstalls = nil
 	ex := m.Step(stripOpts(op), res, hooks, loads, s.deferred)
 	trans := preTotal + m.added // upper bound of the total weight at any instant of this op
 	iterOp := ex.mapRes != nil && strings.HasPrefix(op, "all") || ex.isList
@@ -386,6 +387,40 @@ func (s *seqRunner) apply(op string) OpResult {
 			s.fail("unexpected-removal", name, "op %q: %d=%d removed with cause %s, which this operation does not explain", op, ev.Key, ev.Val, ev.Cause)
 		}
 		delete(m.m, ev.Key)
+	}
+	// An automatic removal of a key (eviction of its previous, e.g. expired, entry by the maintenance that an
+	// earlier install of the same bulk operation triggered) cancels the key's in-flight load: "evicted in between".
+	// The loaded value is then handed to the caller but not installed.
+	if len(m.loadInstalls) > 0 {
+		rawNow := map[int]int{}
+		for _, n := range r.C.VerifRawTable() {
+			rawNow[n.Key] = n.Value
+		}
+		for kk, vv := range m.loadInstalls {
+			if e := m.m[kk]; e == nil || e.val != vv {
+				continue
+			}
+			if cur, ok := rawNow[kk]; ok && cur == vv {
+				continue
+			}
+			evictedDuringOp := false
+			for _, ev := range newAtomic {
+				if ev.Key == kk && ev.Val != vv && (ev.Cause == otter.CauseOverflow || ev.Cause == otter.CauseExpiration) {
+					evictedDuringOp = true
+				}
+			}
+			if evictedDuringOp {
+				delete(m.m, kk)
+				s.counters["cancelled-installs"]++
+				// the previous entry's own removal was reported as an automatic one: drop the explicit expectation
+				for i := 0; i < len(pendingExp); i++ {
+					if pendingExp[i].key == kk {
+						pendingExp = append(pendingExp[:i], pendingExp[i+1:]...)
+						i--
+					}
+				}
+			}
+		}
 	}
 	for _, pe := range pendingExp {
 		s.fail("event-missing", "OnAtomicDeletion", "op %q replaced/removed %d=%d but OnAtomicDeletion did not report it", op, pe.key, pe.val)
